@@ -626,12 +626,17 @@ class Parked:
         self.parked = self.finished = False
         self.error = None
         self.thread = None
+        self.pauses = 0
 
     def pause(self):
+        # EVERY pause() of a hit parks: the release event is cleared again once the thread has been woken, so the next
+        # pause() waits for the driver's next advance() (one arrival is signalled per pause)
+        self.pauses += 1
         self.parked = True
         self.arrived.release()
         if not self.release.wait(30):
             raise TimeoutError('pause not released')
+        self.release.clear()
         self.parked = False
         return 'p%d' % self.idx
 
